@@ -47,12 +47,24 @@ void sched_private_del(const void *p) {
 void sched_private_clear(void) { nregions = 0; }
 void sched_set(int t) { sched_cur = t; }
 
+/* ---- preemption-bounded exploration support: accesses that touch a WATCHED cell are scheduling points ---- */
+static uintptr_t watch[64];
+static int nwatch = 0;
+void (*sched_yield_hook)(void) = 0;
+unsigned long sched_points = 0;          /* scheduling points passed in the current execution */
+void sched_watch_clear(void) { nwatch = 0; }
+void sched_watch_add(uintptr_t cell_addr) { if (nwatch < 64) watch[nwatch++] = cell_addr >> 3; }
+
 static void rec(uintptr_t a, size_t n, int w) {
     tlog_t *l;
     int i;
     if (sched_cur == 0) return;
     if (a >= stack_lo && a < stack_hi) return;
     for (i = 0; i < nregions; i++) if (regions[i].owner == sched_cur && a >= regions[i].lo && a + n <= regions[i].hi) return;
+    if (nwatch && sched_yield_hook) {
+        uintptr_t k0 = a >> 3, k1 = (a + (n ? n - 1 : 0)) >> 3;
+        for (i = 0; i < nwatch; i++) if (watch[i] >= k0 && watch[i] <= k1) { sched_points++; sched_yield_hook(); break; }
+    }
     l = &logs[sched_cur];
     if (w) l->nwrite++; else l->nread++;
     while (n) {
